@@ -308,4 +308,271 @@ theorem endHyp_holds (cfg : Cfg) (B : List Char → CodePair.Cache → Prop) {sr
       subst hx
       rw [hk]; rfl
 
+/-! ## 2: `MarksHyp` -/
+
+theorem unbump (s : IState) :
+    ({ ({ s with level := s.level + 1 } : IState) with level := s.level + 1 - 1 } : IState) = s := by
+  cases s; simp
+
+/-- every rule other than the code-span rule declines at a backtick in look-ahead mode and returns the
+    state it was given (whatever `skip_token` / `tokenize` it is handed) -/
+theorem other_at_backtick {cfg : Cfg} {skip tok : IState → Except Panic IState} {fuel : Nat}
+    {id : RuleId} (hne : id ≠ .backticks) {s : IState} {rest : List Char}
+    (hw : s.window = .ok ('`' :: rest)) {o : Option Nat} {s1 : IState}
+    (h : silentBumped (runRule cfg skip tok fuel id) s = .ok (o, s1)) : o = none ∧ s1 = s := by
+  obtain ⟨wb, hwb, rfl⟩ := silentBumped_ok h
+  have hwB : ({ s with level := s.level + 1 } : IState).window = .ok ('`' :: rest) := hw
+  have hfire : id.firesAt '`' = false := by
+    cases id with
+    | backticks => exact absurd rfl hne
+    | text => decide
+    | newline => decide
+    | escape => decide
+    | emph m c => rfl
+    | link => decide
+    | image => decide
+    | linkEnd => rfl
+    | autolink => decide
+    | entity => decide
+  have ho := silent_declines hwB hfire _ _ hwb
+  have hst : wb = { s with level := s.level + 1 } := by
+    by_cases hf : id.isFlat = true
+    · exact silent_flat_state hf hne hwb
+    · cases id with
+      | link =>
+        rw [link_other hwB (by decide) true] at hwb
+        simp only [Except.ok.injEq, Prod.mk.injEq] at hwb
+        exact hwb.2.symm
+      | image =>
+        rw [image_other hwB (by intro t ht; simp at ht) true] at hwb
+        simp only [Except.ok.injEq, Prod.mk.injEq] at hwb
+        exact hwb.2.symm
+      | _ => simp [RuleId.isFlat] at hf
+  subst hst
+  exact ⟨ho, unbump s⟩
+
+/-- what the code-span rule does at a backtick, through `silentBumped` -/
+theorem back_at_backtick {cfg : Cfg} {skip tok : IState → Except Panic IState} {fuel : Nat}
+    {s : IState} {o : Option Nat} {s1 : IState}
+    (h : silentBumped (runRule cfg skip tok fuel .backticks) s = .ok (o, s1)) :
+    s1.src = s.src ∧ s1.pos = s.pos ∧ s1.posMax = s.posMax ∧ (∀ n, o = some n → 2 ≤ n) ∧
+    (∀ q ∈ s.backticks.insideFailed, q ∈ s1.backticks.insideFailed) ∧
+    ∃ wb, ruleBackticks { s with level := s.level + 1 } true = .ok (o, wb) ∧
+      s1.backticks = wb.backticks := by
+  obtain ⟨wb, hwb, rfl⟩ := silentBumped_ok h
+  have hr : ruleBackticks { s with level := s.level + 1 } true = .ok (o, wb) := by
+    unfold runRule at hwb; exact liftR_ok.mp hwb
+  have hsim := ruleBackticks_simple hr
+  obtain ⟨_, oc, hrun, ho⟩ := ruleBackticks_run hr
+  have hmono : ∀ q ∈ s.backticks.insideFailed, q ∈ wb.backticks.insideFailed :=
+    ruleBackticks_inside_mono (st := { s with level := s.level + 1 }) hr
+  refine ⟨hsim.frame.src, hsim.pos, hsim.frame.posMax, ?_, hmono, wb, hr, rfl⟩
+  intro n hn
+  subst hn
+  cases oc with
+  | none => simp at ho
+  | some o1 =>
+    simp only [Option.map_some, Option.some.injEq] at ho
+    have := (CodePair.codepair_progress _ _ backtick_size _ _ _ _ _ _ _ _ hrun).1
+    omega
+
+/-- the look-ahead chain at a backtick that is followed by a backtick: the position stays, a verdict is at
+    least 2, a mark on the next position persists, and if the code-span rule is in the chain and the chain
+    declines then the next position is marked -/
+theorem chain_marks {cfg : Cfg} {skip tok : IState → Except Panic IState} {fuel : Nat}
+    {rest : List Char} :
+    ∀ (rules : List RuleId) (s : IState), s.window = .ok ('`' :: '`' :: rest) →
+      (InsideFull s.src s.backticks ∨ (s.pos + 1) ∈ s.backticks.insideFailed) →
+      ∀ o w', firstRule (fun id s => silentBumped (runRule cfg skip tok fuel id) s) rules s
+          = .ok (o, w') →
+        w'.pos = s.pos ∧ (∀ n, o = some n → 2 ≤ n) ∧
+        ((s.pos + 1) ∈ s.backticks.insideFailed → (s.pos + 1) ∈ w'.backticks.insideFailed) ∧
+        (RuleId.backticks ∈ rules → o = none → (s.pos + 1) ∈ w'.backticks.insideFailed) := by
+  intro rules
+  induction rules with
+  | nil =>
+    intro s _ _ o w' h
+    simp only [firstRule, Except.ok.injEq, Prod.mk.injEq] at h
+    obtain ⟨rfl, rfl⟩ := h
+    exact ⟨rfl, by intro n hn; simp at hn, fun h => h, by intro h; simp at h⟩
+  | cons r rs ih =>
+    intro s hw hP o w' h
+    unfold firstRule at h
+    by_cases hr : r = .backticks
+    · subst hr
+      split at h
+      · simp at h
+      · next n1 s1 he =>
+        simp only [Except.ok.injEq, Prod.mk.injEq] at h
+        obtain ⟨rfl, rfl⟩ := h
+        obtain ⟨_, hp1, _, hn2, hmono, _⟩ := back_at_backtick he
+        exact ⟨hp1, hn2, fun hm => hmono _ hm, by intro _ hh; simp at hh⟩
+      · next s1 he =>
+        obtain ⟨hs1, hp1, hm1, _, hmono, wb, hwb, hbk⟩ := back_at_backtick he
+        have hw1 : s1.window = .ok ('`' :: '`' :: rest) := by
+          rw [← hw]; exact window_congr hs1 hp1 hm1
+        -- the declining call leaves the next position marked
+        have hmark : (s.pos + 1) ∈ s1.backticks.insideFailed := by
+          rcases hP with hfull | hm
+          · rw [hbk]
+            exact back_decline_marks (st := { s with level := s.level + 1 }) hw hwb hfull
+          · exact hmono _ hm
+        obtain ⟨a1, a2, a3, _⟩ := ih s1 hw1 (.inr (by rw [hp1]; exact hmark)) o w' h
+        have hfin := a3 (by rw [hp1]; exact hmark)
+        rw [hp1] at hfin
+        exact ⟨a1.trans hp1, a2, fun _ => hfin, fun _ _ => hfin⟩
+    · split at h
+      · simp at h
+      · next n1 s1 he =>
+        have := (other_at_backtick hr hw he).1
+        simp at this
+      · next s1 he =>
+        obtain ⟨_, rfl⟩ := other_at_backtick hr hw he
+        obtain ⟨a1, a2, a3, a4⟩ := ih s1 hw hP o w' h
+        refine ⟨a1, a2, a3, ?_⟩
+        intro hmem ho
+        simp only [List.mem_cons] at hmem
+        rcases hmem with hmem | hmem
+        · exact absurd hmem.symm hr
+        · exact a4 hmem ho
+
+/-- a state whose window cannot be taken: a chain that contains the code-span rule does not return -/
+theorem chain_no_window {cfg : Cfg} {skip tok : IState → Except Panic IState} {fuel : Nat}
+    {e : RPanic} :
+    ∀ (rules : List RuleId), RuleId.backticks ∈ rules → ∀ (s : IState), s.window = .error e →
+      ∀ r, firstRule (fun id s => silentBumped (runRule cfg skip tok fuel id) s) rules s ≠ .ok r := by
+  intro rules
+  induction rules with
+  | nil => intro h; simp at h
+  | cons id rs ih =>
+    intro hmem s hw r h
+    have hwB : ({ s with level := s.level + 1 } : IState).window = .error e := hw
+    -- one rule: it does not return, or it is `emph` / `linkEnd` and returns `(none, s)`
+    have hone : ∀ o s1, silentBumped (runRule cfg skip tok fuel id) s = .ok (o, s1) →
+        o = none ∧ s1 = s ∧ id ≠ .backticks := by
+      intro o s1 hb
+      obtain ⟨wb, hwb, rfl⟩ := silentBumped_ok hb
+      unfold runRule at hwb
+      cases id with
+      | text =>
+        have h' := liftR_ok.mp hwb
+        rw [ruleText_silent, hwB] at h'
+        simp at h'
+      | newline =>
+        have h' := liftR_ok.mp hwb
+        rw [ruleNewline_silent, hwB] at h'
+        simp at h'
+      | escape =>
+        have h' := liftR_ok.mp hwb
+        rw [ruleEscape_silent, hwB] at h'
+        simp at h'
+      | backticks =>
+        exfalso
+        have h' := liftR_ok.mp hwb
+        obtain ⟨_, oc, hrun, _⟩ := ruleBackticks_run h'
+        cases hsl : CodePair.slice s.src s.pos s.posMax with
+        | none =>
+          unfold CodePair.run at hrun
+          have hsl' : CodePair.slice ({ s with level := s.level + 1 } : IState).src
+              ({ s with level := s.level + 1 } : IState).pos
+              ({ s with level := s.level + 1 } : IState).posMax = none := hsl
+          rw [hsl'] at hrun
+          simp at hrun
+        | some w =>
+          have := (codeSlice_eq _ _ _ _).mp hsl
+          unfold IState.window at hw
+          rw [this] at hw
+          simp [liftOps] at hw
+      | emph mk csw =>
+        have h' := liftR_ok.mp hwb
+        rw [ruleEmph_silent] at h'
+        simp only [Except.ok.injEq, Prod.mk.injEq] at h'
+        obtain ⟨rfl, rfl⟩ := h'
+        exact ⟨rfl, unbump s, by simp⟩
+      | link =>
+        simp only at hwb
+        unfold ruleLink at hwb
+        rw [hwB] at hwb
+        simp [liftR] at hwb
+      | image =>
+        simp only at hwb
+        unfold ruleImage at hwb
+        rw [hwB] at hwb
+        simp [liftR] at hwb
+      | linkEnd =>
+        simp only [Except.ok.injEq, Prod.mk.injEq] at hwb
+        obtain ⟨rfl, rfl⟩ := hwb
+        exact ⟨rfl, unbump s, by simp⟩
+      | autolink =>
+        have h' := liftR_ok.mp hwb
+        rw [ruleAutolink_silent, hwB] at h'
+        simp at h'
+      | entity =>
+        have h' := liftR_ok.mp hwb
+        rw [ruleEntity_silent, hwB] at h'
+        simp at h'
+    unfold firstRule at h
+    split at h
+    · simp at h
+    · next n1 s1 he =>
+      have := (hone _ _ he).1
+      simp at this
+    · next s1 he =>
+      obtain ⟨_, rfl, hid⟩ := hone _ _ he
+      simp only [List.mem_cons] at hmem
+      rcases hmem with hmem | hmem
+      · exact hid hmem.symm
+      · exact ih hmem s1 hw r h
+
+/-- **the look-ahead step that makes the unit entry at a backtick inside a run leaves its end marked** -/
+theorem marksHyp_holds (cfg : Cfg) : MarksHyp cfg BC := by
+  intro skip tok fuel st st' hb hbt hint hlt hstep hpos
+  obtain ⟨o0, w', hfr, _, hsome, hnone⟩ := skipStep_inv hstep
+  -- the window starts with two backticks
+  cases hwin : st.window with
+  | error e => exact absurd hfr (chain_no_window cfg.chain hbt st hwin _)
+  | ok w =>
+    have hsl := window_eq hwin
+    obtain ⟨_, _, hlen⟩ := slice_boundaries hsl
+    have h0 : CodePair.charAt st.src st.pos = some '`' := by
+      have := hint.2.1
+      rwa [Nat.add_sub_cancel] at this
+    have h1 : CodePair.charAt st.src (st.pos + 1) = some '`' := hint.2.2
+    cases w with
+    | nil => simp only [byteLen] at hlen; omega
+    | cons a w1 =>
+      have ha := charAt_of_slice hsl
+      rw [h0] at ha
+      simp only [Option.some.injEq] at ha
+      subst ha
+      have e3 : ('`' : Char).utf8Size = 1 := by decide
+      cases w1 with
+      | nil => simp only [byteLen, e3] at hlen; omega
+      | cons b rest =>
+        have hb1 := charAt_next (u := ['`']) (b := b) (v := rest) (a := st.pos) (q := st.posMax)
+          (by simpa using hsl)
+        simp only [byteLen, e3, Nat.add_zero] at hb1
+        rw [h1] at hb1
+        simp only [Option.some.injEq] at hb1
+        subst hb1
+        obtain ⟨hp', hn2, _, hmark⟩ := chain_marks cfg.chain st hwin (.inl hb.2) o0 w' hfr
+        cases o0 with
+        | some n =>
+          exfalso
+          have := hsome n rfl
+          have := hn2 n rfl
+          omega
+        | none =>
+          have hm := hmark hbt rfl
+          -- `st'` carries the code-span cache of `w'`
+          have hbk : st'.backticks = w'.backticks := by
+            unfold skipStep at hstep
+            simp only [hfr] at hstep
+            split at hstep
+            · simp at hstep
+            · simp only [Except.ok.injEq] at hstep
+              rw [← hstep]
+          rw [hbk]
+          simpa using hm
+
 end MdIt.Inline.CS
